@@ -388,7 +388,27 @@ theorem c04_go_trailing_ws :
 /-- **local and docker actions are never checked**: a `uses:` value without `@` yields nothing -/
 theorem c04_gha_no_ref_never (content value : Text) (node : Node) (h : ∀ x ∈ value, (x == '@') = false) :
     ghaUses content value node = none := by
-  simp [ghaUses, Sites.usesSplit, findChar_none _ value h]
+  simp [ghaUses, ghaUsesRepo, Sites.usesSplit, findChar_none _ value h]
+
+/-- **a local action is never checked**, whatever follows the leading `.` (`./.github/actions/x@v1`: the `@` is part of a
+    directory name) -/
+theorem c04_gha_local_never (content rest : Text) (node : Node) : ghaUses content ('.' :: rest) node = none := by
+  have : notRepository ('.' :: rest) = true := by
+    unfold notRepository startsWith
+    have : stripPrefix ['.'] ('.' :: rest) = some rest := stripPrefix_append ['.'] rest
+    rw [this]; rfl
+  unfold ghaUses
+  rw [this]; rfl
+
+/-- **a container image is never checked**, whatever follows `docker://` (`docker://alpine@sha256:…`: the `@` introduces
+    the image digest) -/
+theorem c04_gha_docker_never (content rest : Text) (node : Node) : ghaUses content ("docker://".toList ++ rest) node = none := by
+  have : notRepository ("docker://".toList ++ rest) = true := by
+    unfold notRepository startsWith
+    rw [stripPrefix_append]
+    simp
+  unfold ghaUses
+  rw [this]; rfl
 
 /-- a value with a single path component before `@` (no owner/repo) yields nothing -/
 theorem c04_gha_needs_owner_repo : Sites.usesSplit "checkout@v4".toList = some none := by decide
